@@ -104,6 +104,7 @@ def _cbucket(c):
 @st.composite
 def ls_case(draw):
     x = draw(gen.signal(dtype="any", kinds=LS_KINDS, n=_length(draw)))
+    x["gain"] = draw(gen.gains)         # the data may be in any unit: every clause is scale-free
     return {"x": x, "p": _order(draw, x["n"])}
 
 
@@ -114,6 +115,7 @@ def marple_case(draw):
         x["noise"] = draw(st.sampled_from([1e-3, 1e-2, 0.1, 1.0]))
     if x["kind"] == "int":
         x["range"] = draw(st.sampled_from([[-9, 9], [0, 5], [-30, 30]]))
+    x["gain"] = draw(gen.gains)
     return {"x": x, "p": _order(draw, x["n"])}
 
 
